@@ -255,6 +255,23 @@ struct ToctouWorld : World
     memset(impl->mem.gbase + 8, 0x5E, S - 8); // '^', non-zero everywhere
   }
   // called at verifier entry with the object's storage
+  // a buffer the library allocated and hands over: nothing may have been written behind the bytes it asked for, and a
+  // string's terminator lies inside them
+  bool block_overrun = false;
+  size_t block_asked = 0;
+  void check_block(const void* data, bool is_string)
+  {
+    const SimAllocRec* a = data ? sim_alloc_find(data) : nullptr;
+    if (!a)
+      return;
+    const uint8_t* b = (const uint8_t*)data;
+    block_asked = a->n;
+    for (size_t i = a->n; i < a->r && i < a->n + 64; i++)
+      if (b[i] != 0xA5)
+        block_overrun = true;
+    if (is_string && a->n > 0 && memchr(b, 0, a->n) == nullptr)
+      block_overrun = true;
+  }
   void verifier_saw(const void* data, size_t n, bool null_obj = false)
   {
     g_host_alloc_fail_countdown = 0; // the fault targets the allocations RLBox makes before it calls the verifier
@@ -375,6 +392,8 @@ struct ToctouWorld : World
     snapshot();
     faults_fired_in_window = 0;
     verifier_entered = false;
+    block_overrun = false;
+    block_asked = 0;
     got = Got();
 
     auto pA = [&](auto tag) {
@@ -430,6 +449,7 @@ struct ToctouWorld : World
       switch (variant) {
         case V_STR_UPTR:
           kept_str = pA((char*)0).copy_and_verify_string([&](std::unique_ptr<char[]> s) {
+            check_block(s.get(), true);
             verifier_saw(s.get(), s ? bounded_strlen(s.get()) + 1 : 0, !s);
             return s;
           });
@@ -442,6 +462,7 @@ struct ToctouWorld : World
           break;
         case V_STR_UPTR_VOL:
           kept_str = (*cell((char*)0)).copy_and_verify_string([&](std::unique_ptr<char[]> s) {
+            check_block(s.get(), true);
             verifier_saw(s.get(), s ? bounded_strlen(s.get()) + 1 : 0, !s);
             return s;
           });
@@ -605,12 +626,14 @@ struct ToctouWorld : World
           break;
         case V_STR_CUPTR:
           kept_cstr = pA((char*)0).copy_and_verify_string([&](std::unique_ptr<const char[]> s) {
+            check_block(s.get(), true);
             verifier_saw(s.get(), s ? bounded_strlen(s.get()) + 1 : 0, !s);
             return s;
           });
           break;
         case V_STR_CUPTR_VOL:
           kept_cstr = (*cell((char*)0)).copy_and_verify_string([&](std::unique_ptr<const char[]> s) {
+            check_block(s.get(), true);
             verifier_saw(s.get(), s ? bounded_strlen(s.get()) + 1 : 0, !s);
             return s;
           });
@@ -704,6 +727,8 @@ struct ToctouWorld : World
         got.usable = malloc_usable_size(const_cast<char*>(ks));
         if (n >= got.usable) {
           c.violate("C09", cls("string_not_terminated_inside_its_buffer"), "no NUL within the %zu bytes of the buffer handed over", got.usable);
+        } else if (block_overrun) {
+          c.violate("C09", cls("string_not_terminated_inside_its_buffer"), "the library asked for a buffer of %zu bytes and wrote behind them, or put no NUL into them", block_asked);
         } else {
           kept_ptr = ks;
           kept_n = n + 1;
